@@ -66,6 +66,11 @@ class P(flow.Plan):
         root, cfg = model(GENS_BIG, [(0, 0, 0), (1, 2, 0), (1, 0, 0), (-2, 1, 3)], ["A", "B", "C"], 3, 3, 6, False, props=False)
         nb = 300 if tier == "thorough" else 60
         r, files = tlc.simulate("MCTransform", cfg, num=nb, depth=30, seed=sd % (2 ** 31), root_text=root)
+        # second family: few generators, so that save / restore / context-manager interplay dominates the walk
+        # (a state copy that shares objects with the stack only shows when the body restores and then transforms)
+        root2, cfg2 = model(GENS_SMALL[:2], [(0, 0, 0), (1, 2, 0)], ["A"], 3, 2, 8, False, props=False)
+        r2, files2 = tlc.simulate("MCTransform", cfg2, num=4 * nb, depth=18, seed=(sd + 1) % (2 ** 31), root_text=root2, tag="sim2")
+        files = files + files2
         traces, inputs, drift = [], [], []
         for f in files:
             states = tlaval.parse_behaviour_file(f)
